@@ -1,0 +1,56 @@
+//go:build verif
+
+package tubes
+
+// Accessors for the verification harness (build tag verif). They expose the
+// unexported frame codec; nothing here mutates package state.
+
+// VerifFrame mirrors the unexported frame.
+type VerifFrame struct {
+	AckNo, FrameNo                uint32
+	DataLength                    uint16
+	REQ, RESP, REL, ACK, FIN, RTR bool
+	TubeID                        byte
+	Data                          []byte
+}
+
+// VerifInitFrame mirrors the unexported initiateFrame.
+type VerifInitFrame struct {
+	FrameNo                       uint32
+	TubeID                        byte
+	TubeType                      TubeType
+	Data                          []byte
+	DataLength                    uint16
+	REQ, RESP, REL, ACK, FIN, RTR bool
+}
+
+// VerifFrameToBytes encodes with frame.toBytes.
+func VerifFrameToBytes(f VerifFrame) []byte {
+	p := frame{ackNo: f.AckNo, frameNo: f.FrameNo, dataLength: f.DataLength, tubeID: f.TubeID, data: f.Data,
+		flags: frameFlags{REQ: f.REQ, RESP: f.RESP, REL: f.REL, ACK: f.ACK, FIN: f.FIN, RTR: f.RTR}}
+	return p.toBytes()
+}
+
+// VerifFrameFromBytes decodes with fromBytes.
+func VerifFrameFromBytes(b []byte) (VerifFrame, error) {
+	p, err := fromBytes(b)
+	if err != nil || p == nil {
+		return VerifFrame{}, err
+	}
+	return VerifFrame{AckNo: p.ackNo, FrameNo: p.frameNo, DataLength: p.dataLength, TubeID: p.tubeID, Data: p.data,
+		REQ: p.flags.REQ, RESP: p.flags.RESP, REL: p.flags.REL, ACK: p.flags.ACK, FIN: p.flags.FIN, RTR: p.flags.RTR}, nil
+}
+
+// VerifInitFrameToBytes encodes with initiateFrame.toBytes.
+func VerifInitFrameToBytes(f VerifInitFrame) []byte {
+	p := initiateFrame{frameNo: f.FrameNo, tubeID: f.TubeID, tubeType: f.TubeType, data: f.Data, dataLength: f.DataLength,
+		flags: frameFlags{REQ: f.REQ, RESP: f.RESP, REL: f.REL, ACK: f.ACK, FIN: f.FIN, RTR: f.RTR}}
+	return p.toBytes()
+}
+
+// VerifInitFrameFromBytes decodes with fromInitiateBytes.
+func VerifInitFrameFromBytes(b []byte) VerifInitFrame {
+	p := fromInitiateBytes(b)
+	return VerifInitFrame{FrameNo: p.frameNo, TubeID: p.tubeID, TubeType: p.tubeType, Data: p.data, DataLength: p.dataLength,
+		REQ: p.flags.REQ, RESP: p.flags.RESP, REL: p.flags.REL, ACK: p.flags.ACK, FIN: p.flags.FIN, RTR: p.flags.RTR}
+}
